@@ -138,8 +138,9 @@ var props = map[string]propCfg{
 	"C16": {
 		Scenarios: []scenCfg{
 			{Name: "c16", Quick: 1500, Thorough: 120000, Batch: 40},
+			{Name: "c16d", Quick: 600, Thorough: 40000, Batch: 40},
 		},
-		Rule: "c16: one evaluation = one simulated interactive session with --listen (local / non-local address, with / without FZF_API_KEY, --listen-unsafe) and 1..15 simulated clients, some concurrent, sending requests whose class is known by construction (valid GET with limit/offset, valid POST, missing/zero/oversize/non-numeric/negative Content-Length, key absent/exact/prefix/suffix/case-variant/wrong/empty in four header spellings, wrong method/path/version, invalid or empty action list) or arbitrary bytes, with seeded fragmentation, stalls up to beyond the 10 s read timeout and early close at any byte, interleaved with keys; every connection left open must receive exactly one well-formed HTTP/1.1 response with matching Content-Length; class => status; the query must hold exactly the unique markers of the authorised valid POSTs that were answered 200, once each and in order; a final authorised GET must still be served; a non-local address without a key must refuse to start; distinct = distinct event-log hash; non-trivial = at least one POST took effect",
+		Rule: "c16d: differential - the same seeded sequence of action lists (1-3 of ~55 actions each) goes to two otherwise identical sessions, once as POST bodies (each answered before the next), once through keys bound to them; after every list query, cursors, selection order, match list, sort/multi/search/prompt/header/input flags must agree. c16: one evaluation = one simulated interactive session with --listen (local / non-local address, with / without FZF_API_KEY, --listen-unsafe) and 1..15 simulated clients, some concurrent, sending requests whose class is known by construction (valid GET with limit/offset, valid POST, missing/zero/oversize/non-numeric/negative Content-Length, key absent/exact/prefix/suffix/case-variant/wrong/empty in four header spellings, wrong method/path/version, invalid or empty action list) or arbitrary bytes, with seeded fragmentation, stalls up to beyond the 10 s read timeout and early close at any byte, interleaved with keys; every connection left open must receive exactly one well-formed HTTP/1.1 response with matching Content-Length; class => status; the query must hold exactly the unique markers of the authorised valid POSTs that were answered 200, once each and in order; a final authorised GET must still be served; a non-local address without a key must refuse to start; distinct = distinct event-log hash; non-trivial = at least one POST took effect",
 		RealStub: map[string][]string{
 			"real": {"startHttpServer accept loop", "handleHttpRequest (hand-rolled parser, key comparison)", "parseSingleActionList", "Terminal.Loop server-action path", "dumpStatus"},
 			"stub": {"listener and connections (buffered in-memory streams with deadlines on the fake clock)", "tty", "clock", "goroutine scheduler"},
